@@ -281,9 +281,13 @@ class HttpParser:
             # body indication received.  A message announcing an explicit
             # ``Content-Length: 0`` is complete with its headers, whatever
             # follows it belongs to the next message and is kept in the buffer.
+            # The same holds for a request without any body indication.
             elif self.state == httpParserStates.HEADERS_COMPLETE and \
                     not (self._content_expected or self._is_chunked_encoded) and \
-                    (raw == b'' or self.has_header(b'content-length')):
+                    (
+                        raw == b'' or self.has_header(b'content-length') or
+                        self.type == httpParserTypes.REQUEST_PARSER
+                    ):
                 self.state = httpParserStates.COMPLETE
         self.buffer = None if raw == b'' else raw
 
